@@ -16,11 +16,12 @@ FormsMid   == {Form(op, c, s) : op \in Ops \ {"!="}, c \in 1..MaxC, s \in {"L", 
 FormsSmall == {Form(op, c, "L") : op \in {"<=", ">=", "=="}, c \in 1..MaxC}
 FormsFor(n) == IF n = 1 THEN FormsFull ELSE IF n = 2 THEN FormsMid ELSE FormsSmall
 
-TgtOf(kind, src) == IF kind = "list_cprim" /\ src \in {"cprim", "cprim_anc"} THEN "item" ELSE "val"
+TgtOf(kind, src) == IF kind = "list_cprim" /\ src \in {"cprim", "cprim_anc", "cprim_anc2"} THEN "item" ELSE "val"
 
 PlainCombos == {<<"own">>, <<"own", "own">>, <<"own", "desc">>, <<"desc">>, <<"own", "own", "desc">>}
 CprimCombos == {<<"cprim">>, <<"cprim", "cprim">>, <<"cprim_anc">>, <<"cprim", "cprim_anc">>, <<"own", "cprim">>,
-                <<"desc", "cprim">>, <<"own", "desc", "cprim">>, <<"own", "cprim", "cprim_anc">>}
+                <<"desc", "cprim">>, <<"own", "desc", "cprim">>, <<"own", "cprim", "cprim_anc">>,
+                <<"cprim_anc2">>, <<"cprim_anc", "cprim_anc2">>}
 CombosOf(kind) == IF kind \in CprimKinds THEN CprimCombos \cup PlainCombos ELSE PlainCombos
 
 Core(fam, kind, atoms, pats, alpha) ==
@@ -45,7 +46,7 @@ SinglePatCores ==
     {OnePat("str", "own", t) : t \in Trees}
     \cup {OnePat(ks[1], ks[2], WithQ(a, q)) : a \in Atoms, q \in {NoQ, <<1, Inf>>},
               ks \in {<<"cprim_str", "cprim">>, <<"cprim_str", "cprim_anc">>, <<"list_cprim", "cprim">>,
-                      <<"str", "desc">>, <<"cprim_str", "own">>}}
+                      <<"str", "desc">>, <<"cprim_str", "own">>, <<"cprim_str", "cprim_anc2">>, <<"list_cprim", "cprim_anc2">>}}
 
 \* several patterns on the same value: first x second (x third)
 Firsts ==
@@ -55,12 +56,15 @@ Firsts ==
                           CSet(TRUE, <<One(98, "raw")>>), Dot},
                    q \in {NoQ, <<1, Inf>>}}
     \cup {Cat(<<La, Lb>>), Cat(<<La, Rep(Dot, 0, Inf)>>), Alt(<<La, Lb>>), Rep(Alt(<<La, Lb>>), 1, Inf)}
+    \* a literal backslash in front of a letter ( \\\\d  \\\\w  \\\\s  \\\\D : "C:\\data" ), alone and repeated
+    \cup {Cat(<<Lit(92, "esc"), Lit(c, "raw")>>) : c \in {100, 119, 115, 68}}
+    \cup {Rep(Cat(<<Lit(92, "esc"), Lit(100, "raw")>>), 1, Inf), Cat(<<La, Lit(92, "esc"), Lit(119, "raw")>>)}
 Seconds ==
     {Rep(Dot, 1, 2), Rep(Dot, 2, 2), Rep(Dot, 0, Inf), Rep(Dot, 1, Inf), Rep(CSet(FALSE, <<Rng(97, "raw", 99, "raw")>>), 1, Inf),
      Cat(<<La, Rep(Dot, 0, Inf)>>), Cat(<<Rep(Dot, 0, Inf), Lb>>), Rep(CSet(TRUE, <<One(97, "raw")>>), 0, Inf),
      Rep(Alt(<<La, Lb>>), 1, Inf)}
 PairPlaces == {<<"str", "own", "own">>, <<"str", "own", "desc">>, <<"cprim_str", "own", "cprim">>, <<"cprim_str", "cprim", "cprim_anc">>,
-               <<"cprim_str", "cprim", "cprim">>, <<"list_cprim", "cprim", "cprim_anc">>}
+               <<"cprim_str", "cprim", "cprim">>, <<"list_cprim", "cprim", "cprim_anc">>, <<"cprim_str", "cprim_anc", "cprim_anc2">>}
 MultiPatCores ==
     {Core("pat", pl[1], <<>>, <<Pat(pl[2], TgtOf(pl[1], pl[2]), t1), Pat(pl[3], TgtOf(pl[1], pl[3]), t2)>>, Alpha({t1, t2}))
         : pl \in PairPlaces, t1 \in Firsts, t2 \in Seconds}
@@ -72,7 +76,8 @@ MixedCores ==
     {Core("pat", "str", <<Atom("own", "val", f.op, f.c, "L")>>, <<Pat("own", "val", t)>>, Alpha({t}))
         : f \in {Form(">=", 1, "L"), Form("<=", 2, "L")}, t \in {Rep(La, 0, Inf), Rep(Lit(42, "x"), 1, Inf), Rep(CSet(FALSE, <<Rng(97, "raw", 99, "raw")>>), 0, Inf)}}
 
-Shapes == {[L |-> l, pa |-> p, opt |-> o] : l \in 1..3, p \in 1..3, o \in BOOLEAN}
+\* cpo: declaration order of the constrained primitives (0 parents first, 1 Cp in the middle, 2 children first)
+Shapes == {[L |-> l, pa |-> p, opt |-> o, cpo |-> c] : l \in 1..3, p \in 1..3, o \in BOOLEAN, c \in 0..2}
 ShapesOk == {s \in Shapes : s.pa <= s.L}
 
 Out == [len |-> SetToSeq(LenCores), pat |-> SetToSeq(SinglePatCores), multi |-> SetToSeq(MultiPatCores \cup MixedCores), shapes |-> SetToSeq(ShapesOk)]
